@@ -16,7 +16,7 @@ Definition conj (z : cplx) : cplx := mkC (re z) (- im z).
 Definition cneg (z : cplx) : cplx := mkC (- re z) (- im z).
 Definition cadd (z w : cplx) : cplx := mkC (re z + re w) (im z + im w).
 Definition csub (z w : cplx) : cplx := mkC (re z - re w) (im z - im w).
-(* mul: real = a*c - b*d ; imag = a*d + b*c   (mod.rs:68-76) *)
+(* mul: real = a*c - b*d ; imag = a*d + b*c   (mod.rs:74-84) *)
 Definition cmul (z w : cplx) : cplx :=
   mkC (re z * re w - im z * im w) (re z * im w + im z * re w).
 (* div: den = c*c + d*d ; real = (a*c + b*d)/den ; imag = (b*c - a*d)/den   (mod.rs:86-97) *)
@@ -72,8 +72,47 @@ Definition cleb (z w : cplx) : bool :=
   if negb (eqb (re z) (re w)) then leb (re z) (re w) else leb (im z) (im w).
 Definition abs_sqr (z : cplx) : T := re z * re z + im z * im z.
 
+(* ---- additions (package cplx, C13): nothing above changes meaning ---- *)
+
+(* Clone::clone  (mod.rs:36-42): rebuilds the pair from its two components *)
+Definition cclone (z : cplx) : cplx := mkC (re z) (im z).
+
+(* PartialEq::ne is the default `!eq` *)
+Definition cneb (z w : cplx) : bool := negb (ceqb z w).
+
+(* PartialOrd::partial_cmp of the component type, as both component types of the tie implement it:
+   f64: (a <= b, a >= b) -> (T,T) Equal | (T,F) Less | (F,T) Greater | (F,F) None  (core::cmp);
+   Rat: comparison of the cross products (total).  Written with eqb/ltb only. *)
+Definition acmp (x y : T) : option comparison :=
+  if eqb x y then Some Eq else if ltb x y then Some Lt else if ltb y x then Some Gt else None.
+
+(* partial_cmp (mod.rs:248-257): the real parts decide unless they are equal (`!=` false) *)
+Definition ccmp (z w : cplx) : option comparison :=
+  if negb (eqb (re z) (re w)) then acmp (re z) (re w) else acmp (im z) (im w).
+
+(* the provided methods lt / le / gt / ge of PartialOrd are defined from partial_cmp in core::cmp *)
+Definition clt_pc (z w : cplx) : bool := match ccmp z w with Some Lt => true | _ => false end.
+Definition cle_pc (z w : cplx) : bool := match ccmp z w with Some Lt | Some Eq => true | _ => false end.
+Definition cgt_pc (z w : cplx) : bool := match ccmp z w with Some Gt => true | _ => false end.
+Definition cge_pc (z w : cplx) : bool := match ccmp z w with Some Gt | Some Eq => true | _ => false end.
+
+(* the real number r as the complex number (r, 0): right-hand sides of the mixed-form theorems *)
+Definition cof_r (r : T) : cplx := mkC r zero.
+
+(* the assignment forms must see the *old* real part: the variant that reads the overwritten one
+   (the mutation DESIGN Appendix D names) is kept here only to be refuted in Legacy/cplxRefuted.v *)
+Definition cmul_assign_stale (z w : cplx) : cplx :=
+  let r := re z * re w in
+  let r := r - im z * im w in
+  let i := im z * re w in
+  let i := i + r * im w in
+  mkC r i.
+
 End Cplx.
 Arguments cplx A : clear implicits.
+
+(* Complex::<f64>::abs (mod.rs:267-273): f64::sqrt (correctly rounded) of abs_sqr *)
+Definition cabs {S : SArith} (z : cplx S) : S := sqrt (abs_sqr z).
 
 (* Complex<f64> as an element type of the generic containers (Signed::abs = (|z|, 0)) *)
 Definition CArith (S : SArith) : Arith := {|
